@@ -101,7 +101,11 @@ def rs1(prog, rr):
         if isinstance(node, ast.Call) and call_name(node) == "add_constraint" and recv_text(node) == "self._active_randset":
             ev.hits += 1
     ev.hits = 0
-    specialise(lv, None, None, None, on_event=ev, assume={"self._pass == 1": True, "len(self._constraint_s) == 1": True,
+    # the statement stack: the attribute visit_constraint_stmt_enter appends its statement to
+    ent = prog.method("RandInfoBuilder", "visit_constraint_stmt_enter")
+    stk = next((recv_text(n) for n in walk_local(ent.node) if isinstance(n, ast.Call) and call_name(n) == "append" and (recv_text(n) or "").startswith("self.")
+                and n.args and norm(n.args[0]) == ent.params[1]), "self._constraint_s")
+    specialise(lv, None, None, None, on_event=ev, assume={"self._pass == 1": True, "len(%s) == 1" % stk: True,
                                                           "self._active_randset is not None": True,
                                                           "self._active_randset == None": False})
     if adds and ev.hits == 0:
@@ -109,9 +113,8 @@ def rs1(prog, rr):
                    "with an active rand set", text="add_constraint unreachable")
     # pop precedes the depth test
     body = lv.node.body
-    pops = [n for n in walk_local(lv.node) if isinstance(n, ast.Call) and call_name(n) == "pop" and recv_text(n) == "self._constraint_s"]
-    ent = prog.method("RandInfoBuilder", "visit_constraint_stmt_enter")
-    pushes = [n for n in walk_local(ent.node) if isinstance(n, ast.Call) and call_name(n) == "append" and recv_text(n) == "self._constraint_s"]
+    pops = [n for n in walk_local(lv.node) if isinstance(n, ast.Call) and call_name(n) == "pop" and recv_text(n) == stk]
+    pushes = [n for n in walk_local(ent.node) if isinstance(n, ast.Call) and call_name(n) == "append" and recv_text(n) == stk]
     rr.inst("stmt stack: %d push / %d pop" % (len(pushes), len(pops)))
     if len(pushes) != 1 or len(pops) != 1:
         rr.finding(lv, lv.node, "RandInfoBuilder.visit_constraint_stmt_enter/leave", "RS1: statement stack push/pop sites: %d/%d (expected 1/1)"
@@ -145,7 +148,7 @@ def _bracket(prog, rr, f, cname):
 
 
 # --------------------------------------------------------------------------------------- RS2
-@rule("RS2", ["C01", "C05", "C15"], "rand-set merge moves fields, hard, soft and dist data and re-links the field map", engine="XS", floor=2)
+@rule("RS2", ["C01", "C05", "C15", "C02", "C04"], "rand-set merge moves fields, hard, soft and dist data and re-links the field map", engine="XS", floor=2)
 def rs2(prog, rr):
     rib = prog.cls("RandInfoBuilder")
     rs = prog.cls("RandSet")
